@@ -50,6 +50,69 @@ func Run(ctx *common.Ctx) {
 			return "QOther"
 		}
 	}
+	// the other resolutions of a FUNCTION name (plain, p:n, p::n): bit 0 fboundp, 1 symbol-function, 2 #'name,
+	// 3 fdefinition, 4 function-lambda-expression; a bit is set when that form says "defined" (fboundp: a
+	// non-nil value; the others: no error).  Added after the defect "fboundp of a qualified symbol is nil" was
+	// reported from outside: only the call was observed.
+	resolvers := []string{"(fboundp '%s)", "(symbol-function '%s)", "#'%s", "(fdefinition '%s)", "(function-lambda-expression '%s)"}
+	fmask := func(name string) int {
+		m := 0
+		for b, f := range resolvers {
+			o := eval(fmt.Sprintf(f, name))
+			if o.Err == "" && (b != 0 || o.Value != nil) {
+				m |= 1 << b
+			}
+		}
+		return m
+	}
+	// the masks of several names with ONE evaluation (the per-step observation asks 42 names x 5 resolvers):
+	// every resolver call sits in its own (ignore-errors (progn <call> t)); if the combined form does not
+	// yield the expected list of 0/1 the names are asked one form at a time (fmask)
+	fmasks := func(names []string) []int {
+		var b strings.Builder
+		b.WriteString("(list")
+		for _, n := range names {
+			for i, f := range resolvers {
+				if i == 0 {
+					fmt.Fprintf(&b, " (if "+f+" 1 0)", n)
+				} else {
+					fmt.Fprintf(&b, " (if (ignore-errors (progn "+f+" t)) 1 0)", n)
+				}
+			}
+		}
+		b.WriteString(")")
+		out := make([]int, len(names))
+		o := eval(b.String())
+		if list, ok := o.Value.(slip.List); ok && o.Err == "" && len(list) == 5*len(names) {
+			good := true
+			for i, v := range list {
+				fx, isFx := v.(slip.Fixnum)
+				if !isFx || (fx != 0 && fx != 1) {
+					good = false
+					break
+				}
+				out[i/5] |= int(fx) << (i % 5)
+			}
+			if good {
+				return out
+			}
+		}
+		ctx.Hist("resolver-batch-fallback")
+		for i, n := range names {
+			out[i] = fmask(n)
+		}
+		return out
+	}
+	// enumerated, no model needed: built-in functions through every spelling of their package
+	for _, fn := range []string{"car", "cons", "list", "fboundp"} {
+		for _, pre := range []string{"", "cl:", "cl::", "common-lisp:", "common-lisp::"} {
+			ctx.Hist("builtin-qualified-resolvers")
+			if m := fmask(pre+fn) & fmasks([]string{pre + fn})[0]; m != 31 {
+				ctx.Violate("a built-in function is not found through a package-qualified name by every resolver (bits: fboundp, symbol-function, function, fdefinition, function-lambda-expression)",
+					pre+fn, fmt.Sprintf("mask %d", m), "mask 31")
+			}
+		}
+	}
 	// enumerated block (does not depend on the random seed): every qualified write (setq / defvar x one / two
 	// colons) on every kind of target variable of package a (private with a value, exported with a value,
 	// exported without value, private without value, absent, inherited from c) from another current package
@@ -78,6 +141,27 @@ func Run(ctx *common.Ctx) {
 			}
 		}
 	}
+	// the same for (fmakunbound 'a:vf) / (fmakunbound 'a::vf): target function of a private, exported, absent,
+	// inherited from c; evaluated in b or in a; b uses a; afterwards the function is defined again
+	for target := 0; target < 4; target++ {
+		for curp := 0; curp < 2; curp++ {
+			for w := 108; w < 110; w++ {
+				st := func(p, q, x int) [5]int { return [5]int{p, q, 0, 0, x} }
+				var h [][5]int
+				switch target {
+				case 0:
+					h = append(h, st(0, 0, 85))
+				case 1:
+					h = append(h, st(0, 0, 85), st(0, 0, 48))
+				case 2:
+				default:
+					h = append(h, st(2, 0, 5), st(0, 0, 85), st(2, 0, 48), st(0, 2, 20))
+				}
+				h = append(h, st(1, 0, 20), st(curp, 0, 5), st(0, 0, w), st(1-curp, 0, 5), st(0, 0, 85))
+				enum = append(enum, h)
+			}
+		}
+	}
 	ncases += len(enum)
 	for k := 0; len(terms) < ncases; k++ {
 		pk := []string{fmt.Sprintf("vq%da", k), fmt.Sprintf("vq%db", k), fmt.Sprintf("vq%dc", k)}
@@ -92,7 +176,7 @@ func Run(ctx *common.Ctx) {
 			panic("in-package: " + o.Msg)
 		}
 		L := 2 + ctx.Rng.Intn(maxLen-1)
-		var gops, gobs []string
+		var gops, gobs, gfobs []string
 		var recs []opRec
 		val := 0
 		// approximate shadow of the package graph, only used to bias the generator towards steps
@@ -128,7 +212,7 @@ func Run(ctx *common.Ctx) {
 		focus := ctx.Rng.Chance(70)
 		fv, ff, pe := ctx.Rng.Intn(2), ctx.Rng.Intn(2), ctx.Rng.Intn(3)
 		draw := func() (p, q, vn, fn, x int) {
-			p, q, vn, fn, x = ctx.Rng.Intn(3), ctx.Rng.Intn(3), ctx.Rng.Intn(2), ctx.Rng.Intn(2), ctx.Rng.Intn(108)
+			p, q, vn, fn, x = ctx.Rng.Intn(3), ctx.Rng.Intn(3), ctx.Rng.Intn(2), ctx.Rng.Intn(2), ctx.Rng.Intn(114)
 			if focus {
 				if x >= 100 && ctx.Rng.Chance(60) { // qualified writes: mostly into the exporter
 					p = pe
@@ -220,7 +304,7 @@ func Run(ctx *common.Ctx) {
 		if k < len(enum) {
 			forced = enum[k]
 			L = len(forced)
-			ctx.Hist("enumerated-qualified-write")
+			ctx.Hist("enumerated-qualified-write-or-fmakunbound")
 		}
 		for i := 0; i < L; i++ {
 			var lisp, g, xg string
@@ -298,6 +382,15 @@ func Run(ctx *common.Ctx) {
 			case x < 100:
 				lisp, g = fmt.Sprintf("(fmakunbound '%s)", fnames[fn]), fmt.Sprintf("OFmakunbound %d%%N", 2+fn)
 				ownF[cur][2+fn], expF[cur][2+fn] = false, false
+			case x >= 108:
+				// (fmakunbound 'p:f) even x, (fmakunbound 'p::f) odd x
+				colons, priv := ":", "false"
+				if x%2 == 1 {
+					colons, priv = "::", "true"
+				}
+				lisp = fmt.Sprintf("(fmakunbound '%s%s%s)", pk[p], colons, fnames[fn])
+				xg = fmt.Sprintf("XFmakunboundQ %d%%N %d%%N %s", p, 2+fn, priv)
+				g = "XFmakunboundQ" + colons
 			default:
 				// qualified writes: 100 (setq p:n v) 101 (setq p::n v) 102 (defvar p:n v) 103 (defvar p::n v);
 				// 104..107 the same again (random draw only)
@@ -324,7 +417,7 @@ func Run(ctx *common.Ctx) {
 				rec.Obs = append(rec.Obs, "!op failed: "+o.Err+": "+o.Msg)
 			}
 			// observe from every package
-			var obs []string
+			var obs, fobs []string
 			for c := 0; c < 3; c++ {
 				if r := eval("(in-package \"" + pk[c] + "\")"); r.Err != "" {
 					panic("in-package: " + r.Msg)
@@ -337,8 +430,13 @@ func Run(ctx *common.Ctx) {
 				}
 				for _, n := range fnames {
 					obs = append(obs, qres(eval("("+n+")"), true))
+					fnm := []string{n}
 					for _, pp := range pk {
 						obs = append(obs, qres(eval("("+pp+":"+n+")"), true), qres(eval("("+pp+"::"+n+")"), true))
+						fnm = append(fnm, pp+":"+n, pp+"::"+n)
+					}
+					for _, m := range fmasks(fnm) {
+						fobs = append(fobs, strconv.Itoa(m))
 					}
 				}
 			}
@@ -351,13 +449,17 @@ func Run(ctx *common.Ctx) {
 			for _, ob := range obs {
 				ctx.Hist("query:" + strings.SplitN(ob, " ", 2)[0])
 			}
-			rec.Obs = append(rec.Obs, strings.Join(obs, " | "))
+			rec.Obs = append(rec.Obs, strings.Join(obs, " | "), "resolver masks of the function slots: "+strings.Join(fobs, " "))
+			for _, m := range fobs {
+				ctx.Hist("resolver-mask:" + m)
+			}
+			gfobs = append(gfobs, "["+strings.Join(fobs, "; ")+"]%N")
 			recs = append(recs, rec)
 			gops = append(gops, xg)
 			gobs = append(gobs, common.GList(obs))
 		}
 		slip.CurrentPackage = orig
-		term := fmt.Sprintf("(%s,\n    %s)", common.GList(gops), common.GList(gobs))
+		term := fmt.Sprintf("(%s,\n    %s,\n    %s)", common.GList(gops), common.GList(gobs), common.GList(gfobs))
 		ctx.Meta.Evaluations++
 		sig := strings.Join(gops, ";")
 		if !distinct[sig] {
@@ -372,11 +474,11 @@ func Run(ctx *common.Ctx) {
 		}
 	}
 	ctx.Meta.DistinctNontrivial = len(distinct)
-	ctx.Meta.Rule = "48 enumerated histories (seed-independent: {setq, defvar} x {p:n, p::n} x 6 kinds of target variable x current package other / same) + random histories (2..12 ops, thorough 2..14; 70% focused on one variable, one function and one exporting package; 35% start with one of 18 scripted openings of 7..14 steps, one per repaired finding of C13: unuse, private setq, use over own names, (f)makunbound of exported and of inherited names, export before definition, defun on inherited names, unexport in a user, two exporters of one name, use chains) over 3 fresh packages x {in-package, use-package, unuse-package, export, unexport, setq, defvar, defun, makunbound, fmakunbound, and 7% qualified writes (setq|defvar p:n|p::n)} x 2 variable and 2 function names; after every step 84 resolutions (3 current packages x 4 names x {plain, p:, p::} x 3 packages); distinct = distinct op sequences (all have >= 2 ops)"
+	ctx.Meta.Rule = "64 enumerated histories (seed-independent: {setq, defvar} x {p:n, p::n} x 6 kinds of target variable x current package other / same; fmakunbound x {p:f, p::f} x 4 kinds of target function (private, exported, absent, inherited) x current package other / same) + random histories (2..12 ops, thorough 2..14; 70% focused on one variable, one function and one exporting package; 35% start with one of 18 scripted openings of 7..14 steps, one per repaired finding of C13: unuse, private setq, use over own names, (f)makunbound of exported and of inherited names, export before definition, defun on inherited names, unexport in a user, two exporters of one name, use chains) over 3 fresh packages x {in-package, use-package, unuse-package, export, unexport, setq, defvar, defun, makunbound, fmakunbound, 7% qualified writes (setq|defvar p:n|p::n) and 5% qualified fmakunbound (p:f|p::f)} x 2 variable and 2 function names; after every step 84 resolutions (3 current packages x 4 names x {plain, p:, p::} x 3 packages) and, for each of the 42 function slots, the answers of fboundp, symbol-function, function, fdefinition, function-lambda-expression on the same (qualified) name; 20 built-in names (4 functions x {plain, cl:, cl::, common-lisp:, common-lisp::}) through the same five resolvers; distinct = distinct op sequences (all have >= 2 ops)"
 	header := "From C13 Require Import Model Spec Corr.\nOpen Scope Z_scope.\n"
-	footer := "Definition res := Eval vm_compute in xcheck_all cases.\nPrint res.\n" +
-		"Definition gcount := Eval vm_compute in xguard_count cases.\nPrint gcount.\n" +
-		"Definition qualcount := Eval vm_compute in xqual_count cases.\nPrint qualcount.\n"
-	ctx.WriteShards("cases", header, "xcase", footer, terms, descs, 16)
+	footer := "Definition res := Eval vm_compute in fcheck_all cases.\nPrint res.\n" +
+		"Definition gcount := Eval vm_compute in xguard_count (map fst cases).\nPrint gcount.\n" +
+		"Definition qualcount := Eval vm_compute in xqual_count (map fst cases).\nPrint qualcount.\n"
+	ctx.WriteShards("cases", header, "fcase", footer, terms, descs, 16)
 	ctx.ReplayKnownLisp()
 }
